@@ -51,6 +51,7 @@ pub fn judge_admitted(
     pooled: &Snap,
     after: Option<&Snap>,
     chain: &ChainState,
+    truth: &ChainState,
     model: &Model,
     cfg: &Cfg,
 ) -> Vec<AdmFinding> {
@@ -143,6 +144,20 @@ pub fn judge_admitted(
             ));
             continue;
         }
+        if truth.spent_coins.contains(u)
+            && chain.coins.contains_key(u)
+            && model.known_spent.contains(&Key::Coin(*u))
+        {
+            out.push(adm(
+                "c19 admitted_committed_spent_input kind=coin view=stale",
+                Some("c20 committed_input_accepted view=stale"),
+                format!(
+                    "{me} admitted; input {} was spent by an imported block whose spender the pool held itself; the storage view handed to the pool still showed the coin",
+                    short_utxo(u)
+                ),
+            ));
+            continue;
+        }
         if let Some(cf) = chain.coins.get(u) {
             if cf != f {
                 out.push(adm(
@@ -221,6 +236,19 @@ pub fn judge_admitted(
                         "{me} admitted although its message {} was handed out with {} (cache capacity {cap}, pushed out: {forgot})",
                         hex::encode(&m.nonce.as_ref()[28..]),
                         short_id(&holder)
+                    ),
+                ));
+                continue;
+            }
+            if truth.spent_messages.contains(&m.nonce)
+                && chain.messages.contains_key(&m.nonce)
+                && model.known_spent.contains(&Key::Msg(m.nonce))
+            {
+                out.push(adm(
+                    "c19 admitted_committed_spent_input kind=message view=stale",
+                    Some("c20 committed_input_accepted view=stale"),
+                    format!(
+                        "{me} admitted; its message was spent by an imported block whose spender the pool held itself; the storage view still showed the message"
                     ),
                 ));
                 continue;
@@ -402,7 +430,9 @@ pub fn is_plain(t: &TxInfo, before: &Snap, chain: &ChainState, model: &Model, cf
 
 pub fn is_plain_step(step: &Step, model: &Model, cfg: &Cfg, seen: &BTreeSet<fuel_core_types::fuel_tx::TxId>) -> bool {
     match &step.op {
-        Op::Insert { info, .. } => is_plain(info, &step.before, &step.chain, model, cfg, seen),
+        Op::Insert { info, .. } => {
+            !step.lagging && is_plain(info, &step.before, &step.chain, model, cfg, seen)
+        }
         _ => false,
     }
 }
@@ -420,12 +450,13 @@ pub fn check_main(step: &Step, model: &Model, cfg: &Cfg, seen: &BTreeSet<fuel_co
                 &step.before,
                 Some(&step.after),
                 &step.chain,
+                &step.truth,
                 model,
                 cfg,
             ));
         }
         Some(other) => {
-            if is_plain(info, &step.before, &step.chain, model, cfg, seen) {
+            if !step.lagging && is_plain(info, &step.before, &step.chain, model, cfg, seen) {
                 out.push(adm(
                     "c19 plain_tx_rejected",
                     None,
@@ -464,7 +495,7 @@ pub fn followups(step: &Step, model: &Model, cfg: &Cfg) -> Vec<AdmFinding> {
             view.txs.entry(main.id).or_insert_with(|| main.clone());
         }
         view.txs.remove(id);
-        out.extend(judge_admitted(info, &view, None, &step.chain, model, cfg));
+        out.extend(judge_admitted(info, &view, None, &step.chain, &step.truth, model, cfg));
     }
     out
 }
